@@ -27,4 +27,5 @@ PROPS = {
     "C08": {"module": "harness.c08", "level_text": "TODO", "level_note": _BOUNDED},
     "C06": {"module": "harness.c06", "level_text": "TODO", "level_note": _BOUNDED},
     "C07": {"module": "harness.c07", "level_text": "TODO", "level_note": _BOUNDED},
+    "C10": {"module": "harness.c10", "level_text": "TODO", "level_note": _BOUNDED},
 }
